@@ -144,7 +144,11 @@ def _h7(paint_mod):
                     ok = ~(np.isnan(t_in) | np.isnan(t_out))
                     if ok.any():
                         dev = np.abs(t_in - t_out)[ok].max()
-                        if dev > 1e-5 * (1 + np.abs(t_in[ok]).max()):
+                        # the residual transform is rounded to 9 decimals by the code under observation: its effect on
+                        # t grows with the condition number of the affine (ill-conditioned ones are numerically moot)
+                        sv = np.linalg.svd(M[:2, :2], compute_uv=False)
+                        cond = sv[0] / max(sv[1], 1e-300)
+                        if dev > max(1e-5, 1e-7 * cond) * (1 + np.abs(t_in[ok]).max()):
                             _fail("H7", f"gradient parameter not preserved by apply_transform (dev {dev:.4g})", gradient=self, transform=transform, result=res)
                     if (np.isnan(t_in) != np.isnan(t_out)).any():
                         COUNT["H7.nan_mismatch"] += 1
@@ -310,11 +314,14 @@ def palette_spec(colors_in, result):
     for i, c in idx.items():
         if result[i] != c:
             return f"indexed colour {c} not at index {i}"
-    un = sorted((c for c in cols if c.palette_index is None), key=lambda c: tuple(c[:4]))
+    # "unindexed colours fill the lowest free slots in a deterministic order": which order is not
+    # stated (today: ascending RGBA), so only the slot *set* is required here; determinism is checked
+    # by callers through input-order independence
+    un = [c for c in cols if c.palette_index is None]
     free = [i for i in range(want_len) if i not in idx]
-    for c, i in zip(un, free):
-        if result[i] != c:
-            return f"unindexed colour {c} expected at slot {i}, found {result[i]}"
+    got_un = [result[i] for i in free[: len(un)]]
+    if sorted(map(tuple, got_un)) != sorted(map(tuple, un)):
+        return f"unindexed colours {sorted(map(tuple, un))} do not occupy the lowest free slots {free[:len(un)]}: found {got_un}"
     for i in free[len(un):]:
         if tuple(result[i][:4]) != black:
             return f"gap {i} is not black"
